@@ -272,7 +272,7 @@ func runC05(c *Ctx) {
 				isSpecific = true
 			}
 		}
-		body, def, ta := simulate(hHead, t)
+		body, def, ta := simulateDeep(hHead, t)
 		_, viaIface := interface{}(nil), false
 		if ta != nil {
 			_, viaIface = ta.AssertedType.Underlying().(*types.Interface)
